@@ -20,12 +20,14 @@ type Value struct {
 
 // Get returns AtomicValuePtr
 func (r *Value) Get() *ValuePtr {
+	verifYield("Get")
 	data := atomic.LoadPointer(&r.value)
 	return (*ValuePtr)(data)
 }
 
 // Load returns stored value
 func (r *Value) Load() any {
+	verifYield("Load")
 	data := atomic.LoadPointer(&r.value)
 	ret := (*ValuePtr)(data)
 	return ret.Value()
@@ -33,12 +35,14 @@ func (r *Value) Load() any {
 
 // Store stores value
 func (r *Value) Store(v any) {
+	verifYield("Store")
 	tostore := &ValuePtr{v}
 	atomic.StorePointer(&r.value, unsafe.Pointer(tostore))
 }
 
 // CompareAndSwap comapre current value with original and if it is same , set newvalue
 func (r *Value) CompareAndSwap(original *ValuePtr, newval any) bool {
+	verifYield("CompareAndSwap")
 	tostore := &ValuePtr{newval}
 	return atomic.CompareAndSwapPointer(&r.value, unsafe.Pointer(original), unsafe.Pointer(tostore))
 }
